@@ -207,7 +207,7 @@ func genScenario(r *rng, k int, tier string) *scenario {
 			if a := sc.bars[added].after; a >= 0 && !sc.pop && r.chance(1, 2) {
 				// the predecessor moves after the successor was queued: the successor must take over the
 				// position the predecessor has when it hands over, not the one it had at queueing time
-				add(fmt.Sprintf("prio %d %d 0", a, 20+r.intn(10)))
+				add(fmt.Sprintf("prio %d %d 0 %d", a, 20+r.intn(10), b2i(r.chance(1, 2))))
 			}
 			added++
 			continue
@@ -244,7 +244,17 @@ func genScenario(r *rng, k int, tier string) *scenario {
 					pv = r.pickInt([]int{math.MinInt64, math.MinInt64 + 1, math.MaxInt64, -(1 << 40)})
 				}
 			}
-			add(fmt.Sprintf("prio %d %d %d", i, pv, b2i(r.chance(1, 2))))
+			lazy := r.chance(1, 2)
+			add(fmt.Sprintf("prio %d %d %d %d", i, pv, b2i(lazy), b2i(!lazy && r.chance(1, 2))))
+			if lazy && r.chance(1, 3) {
+				// a lazy change followed at once by an immediate change of the same bar (to the same value half of the time):
+				// the next frame must be in order again
+				pv2 := pv
+				if r.chance(1, 2) {
+					pv2 = r.intn(10) - 3
+				}
+				add(fmt.Sprintf("prio %d %d 0 %d", i, pv2, b2i(r.chance(1, 2))))
+			}
 		case op < 18:
 			add(fmt.Sprintf("write %d %d", r.intn(3), 1+r.intn(2)))
 		case op < 19:
@@ -755,7 +765,16 @@ func execScenario(c *runCtx, sc *scenario, eo *execOpts) ([]string, error) {
 				continue
 			}
 			t.add(0, "CL_PRIO b%d %d %d", i, ai(2), ai(3))
-			if !withTimeout(func() { p.UpdateBarPriority(bars[i], ai(2), ai(3) == 1) }) {
+			// an immediate change goes through Bar.SetPriority when the step says so (5th field), else through
+			// Progress.UpdateBarPriority: both entry points are part of the API
+			via := len(f) > 4 && f[4] == "1" && ai(3) != 1
+			if !withTimeout(func() {
+				if via {
+					bars[i].SetPriority(ai(2))
+				} else {
+					p.UpdateBarPriority(bars[i], ai(2), ai(3) == 1)
+				}
+			}) {
 				return hang("prio")
 			}
 			t.add(0, "RET_PRIO b%d", i)
